@@ -28,6 +28,8 @@ CONSTANTS
   FailSaves = TRUE
   Focus = TRUE
   Record = FALSE
+  Marking = FALSE
+  WindAt = 0
   Gaps = {}
   Bugs = {"F1"}
 VIEW view
